@@ -18,7 +18,8 @@ BORROWED = {
             "C13": {"C13-D1a description forms": "C02-r2-3"},
             "C18": {"C18-D2 no shared state written after import": "C02-r2-3"}},
     "C03": {"C02": {"C02-D2 order preserving encode path": "C03-r2-3"},
-            "C05": {"C05-D1e payload forms": "C03-r4-2", "C05-D2 dependency embedded = dependency created alone": "C03-r2-1"},
+            "C05": {"C05-D1e payload forms": "C03-r4-2", "C05-D2 dependency embedded = dependency created alone": "C03-r2-1",
+                    "C05-D1h literal hex recognised": "C03-r5-3"},
             "C18": {"C18-D1 no nondeterministic source on the deterministic commands": "C03-r2-1"}},
     "C04": {"C09": {"C09-D1e skip dominates signing": "C04-r2-2", "C09-D4 recursive wiring": "C04-r4-1",
                     "C09-D4b own key, bottom-up, same name": "C04-r2-3, C04-r3-2",
@@ -53,4 +54,4 @@ TRAP_FILES = {
 
 # rules that are declared only when they have something to report (a refutation, an exit that skips the work): their absence from a
 # neighbour's run that ended normally means "nothing to report"
-LAZY = {"C05-G1 no normal exit skips the work", "C06-G1 no normal exit skips the work", "C10-D2r padding result (refutation)"}
+LAZY = {"C05-D1f payload classification", "C05-D1h literal hex recognised", "C05-G1 no normal exit skips the work", "C06-G1 no normal exit skips the work", "C10-D2r padding result (refutation)"}
